@@ -626,9 +626,10 @@ class Spectrum:
                                  np.where(self.wave <= end + _WAVE_RTOL*abs(end)))
         wave = self.wave[indices]
         value = self.value[indices]
-        if value.dtype.kind in 'biu':
+        if value.dtype.kind in 'biu' or (value.dtype.kind == 'f' and value.dtype.itemsize < 8):
             # integer and boolean values are integrated as numbers (the sums
-            # would otherwise wrap around in the values' own type)
+            # would otherwise wrap around in the values' own type); half and
+            # single precision values are summed in double precision
             value = value.astype(float)
 
         if method == 'simps':
